@@ -133,6 +133,10 @@ func (i *In) parseParentheses(p *parser.Parser, ctx context.Context) error {
 			return err
 		}
 
+		if nextT == nil {
+			break
+		}
+
 		if nextT.IsVariableIdentifier() {
 			i.parseVariable(ctx, nextT)
 		}
